@@ -72,6 +72,19 @@ func Translate(s *Session, evs []Event, maxRbuf uint64) Trace {
 		deferredDec   *MsgInfo
 		deferredState uint64
 	)
+	// The SendError event is traced at the top of SendError; close(stopChan)
+	// happens a few statements later and the goroutine may be descheduled in
+	// between.  The label (whose effect is `stopped`) is therefore emitted as
+	// late as the history allows: before the next label that needs the stop
+	// (a loop exit, Stop, MuxDone, another SendError) - an accepted SendMessage
+	// traced in between proves the stop had not happened yet.
+	pendSE := ""
+	flushSE := func() {
+		if pendSE != "" {
+			out = append(out, lbl{s: pendSE})
+			pendSE = ""
+		}
+	}
 	flushPut := func() {
 		if pendingPut != 0 {
 			mi := info(pendingPut)
@@ -161,6 +174,7 @@ func Translate(s *Session, evs []Event, maxRbuf uint64) Trace {
 					break
 				}
 			}
+			flushSE()
 			emit(fmt.Sprintf("EnqOver %s %v", info(e.Mid).Coq(), f))
 			sendErrored[-int(e.Gid)] = true
 		case protocol.VerifEvTokS:
@@ -255,18 +269,22 @@ func Translate(s *Session, evs []Event, maxRbuf uint64) Trace {
 			case noteHErr:
 				emit("HandlerRet HErr")
 			case noteStop:
+				flushSE()
 				emit("Stop")
 			case noteMuxDone:
+				flushSE()
 				emit("MuxDone")
 			}
 		case protocol.VerifEvSendErr:
 			f := full(i)
 			switch roles[e.Gid] {
 			case gSend:
-				emit(fmt.Sprintf("SendError GSend %v", f))
+				flushSE()
+				pendSE = fmt.Sprintf("SendError GSend %v", f)
 				sendErrored[gSend] = true
 			case gRecv:
-				emit(fmt.Sprintf("SendError GRecv %v", f))
+				flushSE()
+				pendSE = fmt.Sprintf("SendError GRecv %v", f)
 				sendErrored[gRecv] = true
 			case gRead:
 				flushPut()
@@ -281,9 +299,11 @@ func Translate(s *Session, evs []Event, maxRbuf uint64) Trace {
 						out = append(out, lbl{s: "DecBad", isRead: true})
 					}
 				}
-				emit(fmt.Sprintf("SendError GRead %v", f))
+				flushSE()
+				pendSE = fmt.Sprintf("SendError GRead %v", f)
 				sendErrored[gRead] = true
 			case gState:
+				flushSE()
 				emit(fmt.Sprintf("Timeout %v", f))
 			default:
 				// the caller of SendMessage (EnqOver) - already part of that label
@@ -291,15 +311,18 @@ func Translate(s *Session, evs []Event, maxRbuf uint64) Trace {
 		case protocol.VerifEvSendErrStop:
 			tr.Err = true
 		case protocol.VerifEvExitSend:
+			flushSE()
 			if !sendErrored[gSend] {
 				emit("Exit GSend")
 			}
 		case protocol.VerifEvExitRecv:
+			flushSE()
 			if !sendErrored[gRecv] {
 				emit("Exit GRecv")
 			}
 		}
 	}
+	flushSE()
 	_ = firstDeq
 	_ = batchMsgs
 	for _, l := range out {
